@@ -185,7 +185,7 @@ func (r *Run) wiringOf(e *Event) string {
 	return strings.Join(args, ", ")
 }
 
-func compareWiring(a, b *Run) string {
+func compareWiring(a, b *Run, skip map[int]bool) string {
 	wa, wb := wiringByFn(a), wiringByFn(b)
 	var fns []int
 	for fn := range wa {
@@ -193,6 +193,9 @@ func compareWiring(a, b *Run) string {
 	}
 	sort.Ints(fns)
 	for _, fn := range fns {
+		if skip[fn] {
+			continue // what it receives depends on the order of resolution by design
+		}
 		if x, ok := wb[fn]; ok && x != wa[fn] {
 			return fmt.Sprintf("f%d received (%s) in one run and (%s) in the other", fn, wa[fn], x)
 		}
@@ -557,7 +560,7 @@ func evalC16(h *History) *Outcome {
 		if d := compareObs(primP, tobs, func(i int) int { return inv[i] }, "wiring-on-success"); d != nil {
 			o.Viol = append(o.Viol, Violation{Props: []string{"C16"}, Class: "order-dependent-outcome", Op: d.Op,
 				Detail: fmt.Sprintf("a second order of the accepted registrations changes op %d (%s): %s; twin order %v", d.Op, hc.Ops[d.Op].Kind, d.Detail, perm)})
-		} else if w := compareWiring(c.R, tr); w != "" && wiringOK {
+		} else if w := compareWiring(c.R, tr, c.OrderDep); w != "" && wiringOK {
 			o.Viol = append(o.Viol, Violation{Props: []string{"C16"}, Class: "order-dependent-wiring", Op: -1,
 				Detail: fmt.Sprintf("a second order of the accepted registrations changes the wiring: %s; twin order %v", w, perm)})
 		}
@@ -589,7 +592,7 @@ func evalC16(h *History) *Outcome {
 		if d := compareObs(prim[:limit], tobs, mapOp, "wiring-on-success"); d != nil {
 			o.Viol = append(o.Viol, Violation{Props: []string{"C16", "C08"}, Class: "scope-creation-time-matters", Op: d.Op,
 				Detail: fmt.Sprintf("creating the scopes %s changes op %d (%s): %s", map[bool]string{true: "before everything else", false: "as late as possible"}[early], d.Op, hc.Ops[d.Op].Kind, d.Detail)})
-		} else if w := compareWiring(c.R, tr); w != "" && limit == len(hc.Ops) {
+		} else if w := compareWiring(c.R, tr, c.OrderDep); w != "" && limit == len(hc.Ops) {
 			o.Viol = append(o.Viol, Violation{Props: []string{"C16", "C08"}, Class: "scope-creation-time-matters", Op: -1,
 				Detail: fmt.Sprintf("creating the scopes %s changes the wiring: %s", map[bool]string{true: "before everything else", false: "as late as possible"}[early], w)})
 		}
